@@ -41,6 +41,7 @@ type WScenario struct {
 	Targets        []*WTarget    `json:"targets"`
 	DeletePVC      bool          `json:"delete_pvc"`
 	InstantHead    bool          `json:"instant_head"`
+	HeldScrapes    int           `json:"held_scrapes_per_8"` // share of scrapes that stay in flight across a cycle
 	FileMode       bool          `json:"file_mode_sidecars"`
 	StartLagMax    int           `json:"start_lag_max_s"`
 	Initial        []Placement   `json:"initial_placement,omitempty"`
@@ -57,9 +58,14 @@ type WGen struct {
 	Faults    bool
 	Replicas2 bool
 	Thorough  bool
+	ShortQuiet bool // cycle oracles only: no need to wait for convergence
+	// ReloadFault allows the "Prometheus reload fails" fault. It is outside C06's list of
+	// faults (kvass does not retry a failed reload, so convergence is not promised under it)
+	// and is only used where safety oracles alone are evaluated.
+	ReloadFault bool
 }
 
-var allFaults = []string{"post_lost_before", "post_lost_after", "sidecar_restart", "shard_not_ready", "shard_unreachable", "external_scale", "config_out_of_sync", "get_fail"}
+var allFaults = []string{"post_lost_before", "post_lost_after", "sidecar_restart", "shard_not_ready", "shard_unreachable", "external_scale", "config_out_of_sync", "get_fail", "prom_reload_fails"}
 
 // GenWorld draws a world scenario.
 func GenWorld(tp *core.Tape, g WGen) *WScenario {
@@ -110,6 +116,7 @@ func GenWorld(tp *core.Tape, g WGen) *WScenario {
 	sc.Opt.MaxShard = int32(n + 4)
 	sc.DeletePVC = tp.Bool("delete_pvc", 1, 2)
 	sc.InstantHead = tp.Bool("instant_head", 1, 2)
+	sc.HeldScrapes = core.Pick(tp, "held_scrapes", 0, 1, 3)
 	sc.FileMode = tp.Bool("file_mode", 1, 3)
 	sc.StartLagMax = core.Pick(tp, "start_lag", 0, 8, 25)
 	// arbitrary initial placement
@@ -120,7 +127,9 @@ func GenWorld(tp *core.Tape, g WGen) *WScenario {
 			}
 			r := tp.Choose("place_rep", sc.Replicas)
 			ns := int(sc.InitShards[r])
-			switch tp.Weighted("place_kind", 4, 3, 1, 1, 1) {
+			switch tp.Weighted("place_kind", 4, 3, 1, 1, 1, 1) {
+			case 5: // both copies in_transfer, no normal copy anywhere
+				sc.Initial = append(sc.Initial, Placement{r, tp.Choose("place_ord", ns), i, "in_transfer"}, Placement{r, tp.Choose("place_ord2", ns), i, "in_transfer"})
 			case 1: // one normal copy
 				sc.Initial = append(sc.Initial, Placement{r, tp.Choose("place_ord", ns), i, ""})
 			case 2: // duplicate
@@ -145,6 +154,9 @@ func GenWorld(tp *core.Tape, g WGen) *WScenario {
 	if g.Faults {
 		sc.FaultBudget = 1 + tp.Weighted("fault_budget", 3, 3, 2, 1)
 		for _, k := range allFaults {
+			if k == "prom_reload_fails" && !g.ReloadFault {
+				continue
+			}
 			if tp.Bool("fault_enabled", 3, 5) {
 				sc.FaultKinds = append(sc.FaultKinds, k)
 			}
@@ -153,8 +165,37 @@ func GenWorld(tp *core.Tape, g WGen) *WScenario {
 			sc.FaultKinds = []string{"post_lost_before"}
 		}
 	}
+	// flavour "churn": targets come and go all the time on small shards with a short idle
+	// time, so that shards keep becoming idle, being refilled and being scaled away
+	if tp.Bool("churn_flavour", 1, 4) {
+		sc.Opt.MaxIdleTime = 30 * time.Second
+		sc.Opt.MinShard = 0
+		for _, t := range sc.Targets {
+			if t.Kept > int(lim)/2 {
+				t.Kept = int(lim) / 3
+				t.Total = t.Kept
+			}
+		}
+		sc.WorkCycles = 20 + tp.Choose("churn_cycles", 20)
+		sc.Events = nil
+		ne := 6 + tp.Choose("churn_events", 10)
+		for i := 0; i < ne; i++ {
+			sc.Events = append(sc.Events, WEvent{At: time.Duration(tp.Choose("event_at", sc.WorkCycles*10)) * time.Second,
+				Kind: core.Pick(tp, "churn_kind", "remove_target", "add_target", "remove_target", "add_target", "grow"), Idx: tp.Choose("event_target", n), N: 1 + tp.Choose("event_n", 30)})
+		}
+		if g.Faults {
+			sc.FaultBudget = 3 + tp.Choose("churn_faults", 3)
+			sc.FaultKinds = []string{core.Pick(tp, "churn_fault1", "sidecar_restart", "post_lost_after", "external_scale"), core.Pick(tp, "churn_fault2", "sidecar_restart", "post_lost_before", "shard_not_ready", "shard_unreachable")}
+			if g.ReloadFault {
+				sc.FaultKinds[0] = "prom_reload_fails"
+			}
+		}
+	}
 	sc.QuietCycles = 140
 	sc.StableCycles = 12
+	if g.ShortQuiet {
+		sc.QuietCycles = 25
+	}
 	return sc
 }
 
